@@ -3,13 +3,13 @@ import importlib
 
 # property -> list of (rule module, configs it needs in quick tier)
 PROPERTY_RULES = {
-    "C01": ["r_a10", "r_a9", "r_a8", "r_a2", "r_o3", "r_a12", "r_a13", "r_a4", "r_a16"],
-    "C02": ["r_a6", "r_a4", "r_a8", "r_a2", "r_o3", "r_e1", "r_b1", "r_a13", "r_a14", "r_a16"],
+    "C01": ["r_a10", "r_a9", "r_a8", "r_a2", "r_o3", "r_a12", "r_a13", "r_a4", "r_a16", "r_a17"],
+    "C02": ["r_a6", "r_a4", "r_a8", "r_a2", "r_o3", "r_e1", "r_b1", "r_a13", "r_a14", "r_a16", "r_a17"],
     "C03": ["r_a2", "r_a3", "r_a8", "r_a14"],
-    "C04": ["r_a8", "r_e1", "r_a6", "r_a2", "r_b1", "r_o3"],
+    "C04": ["r_a8", "r_e1", "r_a6", "r_a2", "r_b1", "r_o3", "r_a4", "r_a17"],
     "C05": ["r_b1", "r_o3", "r_a2", "r_a12"],
     "C06": ["r_b1", "r_o3", "r_a2"],
-    "C07": ["r_a12", "r_a13", "r_a2", "r_a9", "r_a11"],
+    "C07": ["r_a12", "r_a13", "r_a2", "r_a9", "r_a11", "r_a8"],
     "C08": ["r_a11", "r_o3", "r_a2", "r_a4", "r_a8", "r_a12", "r_e2", "r_a15"],
     "C09": ["r_c4", "r_c3", "r_c1", "r_c5", "r_c7"],
     "C10": ["r_c2", "r_c1", "r_e1", "r_c5", "r_c7"],
@@ -18,9 +18,9 @@ PROPERTY_RULES = {
     "C13": ["r_e4", "r_a6", "r_c3", "r_e1", "r_a13", "r_a16"],
     "C14": ["r_d1"],
     "C15": ["r_d2", "r_d3"],
-    "C16": ["r_e1", "r_e2"],
-    "C17": ["r_c6", "r_a3", "r_c5", "r_a14"],
-    "C18": ["r_a15"],
+    "C16": ["r_e1", "r_e2", "r_e5"],
+    "C17": ["r_c6", "r_a3", "r_c5", "r_a14", "r_a6", "r_a16"],
+    "C18": ["r_a15", "r_a2"],
 }
 
 LEVEL = {"C14": "proof"}
@@ -39,7 +39,7 @@ CLAUSES = {
     "C04": "every write to BytesMut.{ptr,len,cap} is justified (bounded by the allocation, paired with its companions, bytes moved before the pointer, "
            "non-overlap guard before copy_nonoverlapping); split halves use one cut operand; merge needs all four adjacency conjuncts; Clone never shares; "
            "the reservation helper returns false only on paths without any state write and true only through a justified cap write; request arithmetic cannot wrap; "
-           "the reclaiming paths take the allocation over only behind an Acquire uniqueness test on a count that is kept by atomic read-modify-writes (A2, B1, O3)",
+           "the reclaiming paths take the allocation over only behind an Acquire uniqueness test on a count that is kept by atomic read-modify-writes (A2, B1, O3); allocation extents are recomputed by one formula, also through rebuild helpers judged at their callers (A4); the vec-position bits of the data word agree with the pointer (A17)",
     "C07": "no byte-buffer allocation and no byte copy is reachable from any zero-copy operation (vtable dispatch expanded), apart from verified exempt "
            "edges; clone returns the (ptr, len) it was given; slice/slice_ref re-base by exactly the range start; empty split_off/split_to "
            "results are built at self.ptr + at / self.ptr",
@@ -49,14 +49,15 @@ CLAUSES = {
            "n <= allocation size (A15, linear-inequality domain)",
     "C18": "ONLY the statement's last sentence: a reserve(n) on an empty handle that is alone on a buffer that is large enough never allocates (and try_reclaim(n) is true) - "
            "every control-flow path of the reservation helper that reaches Vec::reserve / Vec::with_capacity or returns false is excluded under len == 0, uniqueness and "
-           "n <= allocation size, in both representations (KIND_VEC: cap + vec position; KIND_ARC: capacity of the shared Vec). The quantitative part (peak heap and allocation "
-           "counts over 10^3..10^6-round histories) is NOT decided",
+           "n <= allocation size, in both representations (KIND_VEC: cap + vec position; KIND_ARC: capacity of the shared Vec). And the precondition of that sentence in a recycling loop: dropping "
+           "a split-off part gives its reference back exactly once on every path (A2), so that the remaining handle can become the sole owner again - a leaked reference "
+           "makes every later refill allocate. The quantitative part (peak heap and allocation counts over 10^3..10^6-round histories) is NOT decided",
     "C03": "on every CFG path of every vtable/drop/conversion/duplication function the handle's reference is disposed exactly once (minted exactly once "
            "for clone); initial counts match the number of handles; consuming slots are called only on ManuallyDrop'd handles; from_owner boxes before "
            "as_ref, calls it once, unwinds into Drop; handles are merged only when they share one control block; no user code in ManuallyDrop windows",
     "C02": "structural preconditions of the unsafe code: every safe caller establishes the stated precondition of each unsafe helper in release code; "
            "raw slices have an approved (ptr,len) shape; raw writes are bounded by the real destination length; no wrap-around feeds an extent; "
-           "refcount overflow aborts; the length of a BytesMut / slice cursor grows only over bytes written just before (every safe set_len / advance_mut is a shrink or is dominated by a covering write at the first unexposed byte, A16)",
+           "refcount overflow aborts; the length of a BytesMut / slice cursor grows only over bytes written just before (every safe set_len / advance_mut is a shrink or is dominated by a covering write at the first unexposed byte, A16); the tagged word in BytesMut.data keeps its bit fields in range and encodes vec position 0 whenever the pointer is the start of its Vec (A17, upper-bound analysis with control-block fields bounded at every constructor)",
     "C13": "in every safe &mut-self method with integer/range/slice arguments no state write can reach an argument-dependent panic (panic strictly before "
            "mutation); argument checks dominate the unchecked operations they protect in release builds; overflowing requests cannot wrap silently; "
            "Bytes::slice produces every result (also the empty one) only after both range checks; an over-long truncate / resize argument cannot make unwritten bytes visible (A16)",
@@ -79,7 +80,7 @@ CLAUSES = {
            "move min(real lengths) and stop only on exhaustion; BytesMut's growth path moves the bytes in the right direction before re-basing; advance_mut after a specialised write exposes exactly bytes that a dominating write at the write cursor covered (A16)",
     "C16": "no profile-dependent arithmetic (overflow/shift asserts, explicit wrapping ops) on caller-controlled integers anywhere in the crate; the "
            "even/odd promotable vtables are slot-wise isomorphic modulo unmasking, the parity dispatch is consistent and vtable identity tests cover both parities; fact tables agree across the "
-           "feature/atomic configurations (thorough tier)",
+           "feature/atomic configurations (thorough tier); the conditions of debug_assert! are effect-free, so builds with and without debug assertions run the same state changes (E5)",
     "C14": "all comparison/hash/borrow impls delegate to the [u8] impl over content-preserving views with operands in the right order",
 }
 
@@ -99,7 +100,8 @@ TECHNIQUE = {
     "C08": "return-value flow of the is_unique slot functions cross-checked against the take-over paths of into_mut (path summaries) + dominating-guard analysis; "
            "abstract interpretation of the reservation helper in a linear-inequality domain (own Fourier-Motzkin emptiness test), one state per CFG path",
     "C18": "abstract interpretation of the reservation helper's MIR in a linear-inequality domain (own Fourier-Motzkin emptiness test, one state per CFG path) under the "
-           "hypotheses empty + sole owner + request <= allocation size: all paths to allocation calls / `return false` must be empty",
+           "hypotheses empty + sole owner + request <= allocation size: all paths to allocation calls / `return false` must be empty; "
+           "path-sensitive linear-token accounting of references (A2)",
     "C03": "path-sensitive linear-token accounting over MIR (acyclic path enumeration with constant folding and tag-feasibility pruning, interprocedural event summaries)",
     "C02": "precondition extraction from debug_assert!s of unsafe helpers + dominating-guard implication at every safe call site; shape rules for raw slices/writes; arithmetic taint",
     "C13": "reachability from state-write sites to argument-dependent panic sites over MIR CFGs with interprocedural summaries; dominating-guard implication; arithmetic taint",
